@@ -4,6 +4,7 @@
 // A case is   <base> <layer>* ; op ; op ; ...
 //   base:   mem | ldb | pbl            (memorydb, leveldb in a temp dir, pebble in a temp dir)
 //   layer:  t<hex> (table.New(x, prefix); "t-" = empty prefix) | f (flushable.Wrap) | s (synced.WrapStore)
+//           | z (flushable.NewLazy whose producer returns the store below)
 //           layers are listed bottom-up; depth 0 is the top of the stack.
 //   handle: <depth>[/<hex>]*           (extra table wrappers created on the fly: table.New(level, p1).NewTable(p2)...)
 //   ops:    put h k v | del h k | get h k | has h k | it h prefix start
@@ -204,15 +205,22 @@ func Teardown() {
 
 // ---------- the stack ----------
 
+type flusher interface {
+	Flush() error
+	DropNotFlushed()
+	NotFlushedPairs() int
+	NotFlushedSizeEst() int
+}
+
 type Stack struct {
 	levels []kvdb.Store // index 0 = top
-	flus   map[int]*flushable.Flushable
+	flus   map[int]flusher
 	rec    *recStore
 	eng    *engine
 }
 
 func Build(header []string) *Stack {
-	s := &Stack{flus: map[int]*flushable.Flushable{}}
+	s := &Stack{flus: map[int]flusher{}}
 	var base kvdb.Store
 	switch header[0] {
 	case "mem":
@@ -225,13 +233,18 @@ func Build(header []string) *Stack {
 	}
 	s.rec = &recStore{Store: base}
 	bottomUp := []kvdb.Store{s.rec}
-	var flus []*flushable.Flushable
+	var flus []flusher
 	flus = append(flus, nil)
 	cur := kvdb.Store(s.rec)
 	for _, l := range header[1:] {
 		switch {
 		case l == "f":
 			f := flushable.Wrap(cur)
+			cur = f
+			flus = append(flus, f)
+		case l == "z":
+			below := cur
+			f := flushable.NewLazy(func() (kvdb.Store, error) { return below, nil }, nil)
 			cur = f
 			flus = append(flus, f)
 		case l == "s":
@@ -478,7 +491,11 @@ func (s *Stack) Run(ops [][]string, stat func(string)) (obs []string) {
 		case "compact":
 			s.rec.lo, s.rec.hi = []byte("unset"), []byte("unset")
 			fail("compact", s.handle(o[1]).Compact(Bytes(o[2]), Bytes(o[3])))
-			obs = append(obs, "C", OTok(s.rec.lo), OTok(s.rec.hi))
+			if string(s.rec.lo) == "unset" && string(s.rec.hi) == "unset" {
+				obs = append(obs, "C", "!", "!") // the request never reached the base
+			} else {
+				obs = append(obs, "C", OTok(s.rec.lo), OTok(s.rec.hi))
+			}
 		case "lit":
 			if old := live[o[1]]; old != nil {
 				old.Release()
